@@ -22,6 +22,26 @@ class CacheRoles:
         p = ctx.program
         self.impl = p.func(FILE, 'threadsafe_async_cache')
         impl = self.impl
+        self.outer = impl
+        handed: Dict[str, ast.expr] = {}      # parameter of the closure holder -> what the public decorator passes for it
+        if not any(c.kind == 'function' and c.is_async for c in impl.children):
+            # the closure (tables, lock, wrapper coroutine) is built by a private factory the decorator returns the result
+            # of - possibly in another module of the package: the factory is the implementation, the decorator selects
+            # the mapping and hands it over
+            for n in own_nodes(impl.node):
+                if isinstance(n, ast.Return) and isinstance(n.value, ast.Call) and isinstance(n.value.func, ast.Name):
+                    path = Resolver(impl).path(n.value.func) or ''
+                    hname = n.value.func.id
+                    cands = [sc for u_ in p.units.values() for sc in u_.functions()
+                             if sc.name in (hname, path.split('.')[-1]) and sc.enclosing_function() is None and sc.enclosing_class() is None
+                             and any(c.kind == 'function' and c.is_async for c in sc.children)]
+                    if len(cands) == 1 and not n.value.keywords and not any(isinstance(a, ast.Starred) for a in n.value.args):
+                        h = cands[0]
+                        hp = list(h.params)
+                        if len(n.value.args) <= len(hp):
+                            handed = dict(zip(hp, n.value.args))
+                            self.impl = impl = h
+                            break
         # the wrapper: nested async def that the implementation returns
         nested = [c for c in impl.children if c.kind == 'function' and c.is_async]
         returned = None
@@ -49,14 +69,31 @@ class CacheRoles:
                     if isinstance(t, ast.Name) and n.value is not None:
                         assigns.setdefault(t.id, []).append(n.value)
         self.impl_assigns = assigns
-        params = list(impl.params)
+        params = list(self.outer.params)
         self.func_param = params[0]
-        kwonly = [a.arg for a in impl.node.args.kwonlyargs]
+        kwonly = [a.arg for a in self.outer.node.args.kwonlyargs]
         self.cache_param = kwonly[0] if kwonly else None
         self.lock: Optional[str] = None
         self.cache: Optional[str] = None
         self.cache_expr: Optional[ast.expr] = None
         self.wrapped: Optional[str] = None
+        if handed:
+            # roles of the factory's parameters, from what the decorator passes
+            oassigns: Dict[str, List[ast.expr]] = {}
+            for n in own_nodes(self.outer.node):
+                if isinstance(n, (ast.Assign, ast.AnnAssign)) and getattr(n, 'value', None) is not None:
+                    for t in (n.targets if isinstance(n, ast.Assign) else [n.target]):
+                        if isinstance(t, ast.Name):
+                            oassigns.setdefault(t.id, []).append(n.value)
+            for hp_, arg in handed.items():
+                vals_ = [arg] + (oassigns.get(arg.id, []) if isinstance(arg, ast.Name) else [])
+                for v in vals_:
+                    names_ = {x.id for x in ast.walk(v) if isinstance(x, ast.Name)}
+                    if self.cache_param in names_ and self.cache is None:
+                        self.cache = hp_
+                        self.cache_expr = v if not (isinstance(v, ast.Name) and v.id == self.cache_param) else None
+                    if (isinstance(v, ast.Name) and v.id == self.func_param) and self.wrapped is None and self.cache != hp_:
+                        self.wrapped = hp_
         for name, vals in assigns.items():
             for v in vals:
                 if isinstance(v, ast.Call) and ires.path(v.func) in ('threading.Lock', 'threading.RLock'):
@@ -142,10 +179,12 @@ class CacheRoles:
         self.key_exprs = keys
         # loop head: outermost loop enclosing the CALL
         self.HEAD: Optional[Node] = None
-        if self.CALL and self.CALL[0].loops:
-            outer = self.CALL[0].loops[0]
+        # the retry loop: the outermost loop around the decision (look-up / mark); the computation itself may sit after it
+        anchor = next((n for n in self.MARK + self.LOOKUP + self.CALL if n.loops), None)
+        if anchor is not None:
+            outer = anchor.loops[0]
             for n in g.nodes:
-                if n.kind == 'loop_head' and n.ast is outer:
+                if n.kind in ('loop_head', 'for_iter') and n.ast is outer:
                     self.HEAD = n
         self.held = held_locks(g, [self.lock])
 
@@ -1158,7 +1197,7 @@ def c06(ctx: Ctx) -> None:
                       detail_bad=('the handler re-raises also when the waiter task itself finished cancelled: a '
                                   'CancelledError caused by the computing loop\'s shutdown is delivered to a caller nobody cancelled'),
                       witness=render(g, bad),
-                      construct=construct_key(r.wrapper.qualname, 'foreign CancelledError re-raised', '/'.join(sorted(h.meta.get('classes') or ['bare']))))
+                      construct=construct_key('CACHE.wrapper', 'handler around the shielded wait re-raises a foreign CancelledError'))
     if not shield_awaits:
         ctx.violation('C06-R5', 'the wait is not shielded', f'{FILE}:{r.wrapper.lineno}',
                       'cancelling a waiter cancels the shared wait directly',
